@@ -10,8 +10,9 @@ import json
 import os
 import sys
 
-if os.environ.get('PYTHONHASHSEED') != '0':
-    os.environ['PYTHONHASHSEED'] = '0'
+_HS = os.environ.get('VERIF_HASHSEED', '0')
+if os.environ.get('PYTHONHASHSEED') != _HS:
+    os.environ['PYTHONHASHSEED'] = _HS
     os.execv(sys.executable, [sys.executable] + sys.argv)
 
 VERIF = os.path.dirname(os.path.dirname(os.path.abspath(__file__)))
@@ -34,6 +35,8 @@ def main():
     ap.add_argument('--replay')
     ap.add_argument('--no-evidence', action='store_true')
     ap.add_argument('--verbose', action='store_true')
+    ap.add_argument('--digests', type=int, help='print {run index: digest} for the first N runs and exit')
+    ap.add_argument('--reverse', action='store_true', help='(with --digests) execute runs in reverse order')
     args = ap.parse_args()
     prop = args.prop
     spec = REGISTRY[prop]
@@ -54,6 +57,14 @@ def main():
         return 0
     base_seed = int(os.environ.get('VERIF_SEED', '20260923'))
     tier = args.tier
+    if args.digests:
+        out = {}
+        for part in spec['parts']:
+            d = runner.digests(prop, part['scenario'], tier, base_seed, args.digests, jobs=args.jobs,
+                               src=SRC, reverse=args.reverse)
+            out[part['scenario']] = d
+        print('DIGESTS ' + json.dumps(out, sort_keys=True))
+        return 0
     tspec = spec[tier]
     n_runs = args.runs or tspec['runs']
     budget = args.budget or tspec['budget']
